@@ -31,6 +31,8 @@ def _expr(e, state):
         if ch[5:] not in state:
             raise AnalysisError(f"miniexec: attribute {ch} has no known initial value")
         return state[ch[5:]]
+    if isinstance(e, ast.Name) and ("local", e.id) in state:
+        return state[("local", e.id)]
     if isinstance(e, ast.UnaryOp) and isinstance(e.op, ast.Not):
         return not _expr(e.operand, state)
     if isinstance(e, ast.UnaryOp) and isinstance(e.op, ast.USub):
@@ -68,6 +70,15 @@ def _block(body, state, effects, effect_methods):
         if isinstance(s, (ast.Assign, ast.AugAssign)):
             tgt = s.targets[0] if isinstance(s, ast.Assign) else s.target
             ch = A.chain(tgt)
+            if isinstance(tgt, ast.Name):
+                # a local of the method: kept beside the attributes under a ("local", name) key
+                if isinstance(s, ast.Assign):
+                    state[("local", tgt.id)] = _expr(s.value, state)
+                else:
+                    if type(s.op) not in _BIN:
+                        raise AnalysisError(f"miniexec: unsupported operator in `{A.short(s, 70)}`")
+                    state[("local", tgt.id)] = _BIN[type(s.op)](_expr(tgt, state), _expr(s.value, state))
+                continue
             if not (ch and ch.startswith("self.") and ch.count(".") == 1):
                 raise AnalysisError(f"miniexec: unsupported assignment target in `{A.short(s, 70)}`")
             if isinstance(s, ast.Assign):
@@ -97,6 +108,8 @@ def run_method(func_node, state: dict, effect_methods) -> list[str]:
         _block(func_node.body, state, effects, tuple(effect_methods))
     except _Return:
         pass
+    for k in [k for k in state if isinstance(k, tuple) and k[0] == "local"]:
+        del state[k]  # locals do not outlive the call
     return effects
 
 
